@@ -1,6 +1,7 @@
 (* Pins: full statements of the C03loop theorems; a weakened theorem no longer type-checks here.
    Generated once by tools/mkpins.py from Props/C03loop.v and then committed: edit both or neither. *)
 From SV Require Import Lib.Base Model.EgressLoop Proofs.EgressLoopProofs.
+From SV Require Import Gen.Consts Model.DgramQueue Model.Dgram Proofs.DgramProofs Proofs.DgramLoop.
 From SV Require Import Props.C03loop.
 
 Check (C03_egress_loop_returns : forall (St : Type) (dispatch : St -> St * bool) (mu : St -> nat),
@@ -32,3 +33,10 @@ Check (C03_egress_loop_shared_env_returns :
 Check (C03_egress_loop_shared_env_example :
   poll_loop2 nat nat ex_dispatch2 Nat.pred 10 4%nat [2; 0; 3]%nat = Some (0%nat, [1; 0; 2]%nat, 1%nat) /\
   poll_loop2 nat nat ex_dispatch2 Nat.pred 10 20%nat [2; 0; 3]%nat = Some (11%nat, [0; 0; 0]%nat, 3%nat)).
+
+Check (C03_dgram_socket_set_egress_returns :
+  forall (E : Type) (ev : env) (decide : E -> sock -> Z * E) (pre : E -> E) fuel e ss,
+  Forall sock_wf ss -> (total2 sock dg_mu ss < fuel)%nat ->
+  exists e' r n, poll_loop2 E sock (dg_dispatch E ev decide) pre fuel e ss = Some (e', r, n) /\
+                 (n + total2 sock dg_mu r <= total2 sock dg_mu ss)%nat /\
+                 length r = length ss /\ Forall sock_wf r).
